@@ -498,7 +498,9 @@ class Process(StateMachine, persistence.Savable, metaclass=ProcessStateMachineMe
         if isinstance(self._state, process_states.Killed):
             raise exceptions.KilledError(self._state.msg)
         if isinstance(self._state, process_states.Excepted):
-            raise (self._state.exception or Exception('process excepted'))
+            if self._state.exception is None:
+                raise Exception('process excepted')
+            raise self._state.exception
 
         raise exceptions.InvalidStateError
 
